@@ -116,6 +116,8 @@ func cmdCheck(args []string) int {
 	trace := fs.Bool("trace", false, "trace instructions")
 	timeoutMs := fs.Int("solver-timeout-ms", 30000, "per-query solver timeout")
 	noEvidence := fs.Bool("no-evidence", false, "do not write evidence")
+	progress := fs.Bool("progress", false, "print progress every 10s")
+	budget := fs.Int("budget", 0, "wall-clock budget per harness in seconds (0 = from harness config / 3000)")
 	var prop string
 	if len(args) > 0 && !strings.HasPrefix(args[0], "-") {
 		prop = args[0]
@@ -241,7 +243,7 @@ func cmdCheck(args []string) int {
 			if c.Workers > 0 {
 				w = c.Workers
 			}
-			results[i] = runHarness(ld, &c, w, j.mode, *trace, *timeoutMs)
+			results[i] = runHarness(ld, &c, w, j.mode, *trace, *timeoutMs, *progress, *budget)
 		}(i, j)
 	}
 	wg.Wait()
@@ -305,7 +307,7 @@ func cmdCheck(args []string) int {
 	}
 	for _, r := range results {
 		if r.ex != nil {
-			fmt.Printf("  %-22s %-12s paths=%d %v decisions=%d queries=%d (unknown %d) solver=%.1fs wall=%.1fs\n", r.cfg.Name, r.mode, r.ex.paths, r.ex.pathKinds, r.ex.decisions, r.ex.queries, r.ex.unknowns, r.ex.solveTime.Seconds(), r.wall.Seconds())
+			fmt.Printf("  %-22s %-12s paths=%d %v decisions=%d queries=%d (unknown %d, cache hits %d) solver=%.1fs wall=%.1fs\n", r.cfg.Name, r.mode, r.ex.paths, r.ex.pathKinds, r.ex.decisions, r.ex.queries, r.ex.unknowns, r.ex.cacheHits, r.ex.solveTime.Seconds(), r.wall.Seconds())
 		}
 	}
 	if len(violLines) > 0 {
@@ -379,7 +381,7 @@ func newMachine(ld *Loader, cfg *HarnessCfg, backend string, timeoutMs int) (*Ma
 	return m, nil
 }
 
-func runHarness(ld *Loader, cfg *HarnessCfg, nworkers int, mode string, trace bool, timeoutMs int) *harnessResult {
+func runHarness(ld *Loader, cfg *HarnessCfg, nworkers int, mode string, trace bool, timeoutMs int, progress bool, budget int) *harnessResult {
 	t0 := time.Now()
 	res := &harnessResult{cfg: cfg, mode: mode}
 	entry := findFunc(ld, cfg.Pkg, cfg.Entry)
@@ -391,6 +393,35 @@ func runHarness(ld *Loader, cfg *HarnessCfg, nworkers int, mode string, trace bo
 	res.ex = ex
 	var wg sync.WaitGroup
 	var mu sync.Mutex
+	if budget == 0 {
+		budget = cfg.Params["budgetS"]
+	}
+	if budget == 0 {
+		budget = 3000
+	}
+	doneCh := make(chan struct{})
+	go func() {
+		tick := time.NewTicker(10 * time.Second)
+		defer tick.Stop()
+		for {
+			select {
+			case <-doneCh:
+				return
+			case <-tick.C:
+				ex.mu.Lock()
+				if progress {
+					fmt.Printf("  .. %s %s: %.0fs paths=%d %v queue=%d violations=%d\n", cfg.Name, mode, time.Since(t0).Seconds(), ex.paths, ex.pathKinds, len(ex.queue), len(ex.violations))
+				}
+				if time.Since(t0) > time.Duration(budget)*time.Second && !ex.stop {
+					ex.stop = true
+					ex.inconclusive = append(ex.inconclusive, fmt.Sprintf("wall-clock budget of %ds exceeded after %d paths (bound too large for this tier)", budget, ex.paths))
+					ex.cond.Broadcast()
+				}
+				ex.mu.Unlock()
+			}
+		}
+	}()
+	defer close(doneCh)
 	for w := 0; w < nworkers; w++ {
 		wg.Add(1)
 		go func(w int) {
@@ -428,6 +459,7 @@ func runHarness(ld *Loader, cfg *HarnessCfg, nworkers int, mode string, trace bo
 			ex.definite += m.solver.Definite
 			ex.unknowns += m.solver.Unknowns
 			ex.solveTime += m.solver.SolveTime
+			ex.cacheHits += m.cacheHits
 			for f, n := range m.funcsEncoded {
 				ex.funcs[f.String()] += n
 			}
